@@ -303,6 +303,8 @@ def monitor_case(ops, obs, which):
         if op == "crashcheck" and r == "ok" and o.get("cp", "ok") != "ok" and not fstate.get("tampered"):
             V("C06", "reopened-op-" + o["cp"], f"killed after {ops[i-1].strip() if i > 0 else 'creation'}: the file opens again, but an operation on the reopened arena (a request the free list must serve / a release / discard_freelist) ends with {o['cp']}", i)
         if op == "close_last" and r == "ok":
+            if o.get("mp", "0") != "0":
+                V("C13", "mapping-not-released", f"after the last owner (handle {t[1]}) was dropped the process still maps the file ({o['mp']} mapping(s))", i)
             h_ = int(t[1])
             ent_ = live.get(h_)
             if h_ in dhandles:
@@ -731,6 +733,8 @@ def monitor_case(ops, obs, which):
         if op == "close":
             fstate["ro_state"] = None
             # the backing memory / mapping is released exactly once when the last arena value goes (real Memory::unmount count)
+            if r == "ok" and o.get("mp", "0") != "0":
+                V("C13", "mapping-not-released", f"after the last arena value was dropped the process still maps the file ({o['mp']} mapping(s)): the backing memory was not released", i)
             if r == "ok" and "um" in o and o["um"] != "1":
                 V("C13", "unmount-count", f"close released the backing memory {o['um']} times (expected exactly once)", i)
         if op == "wres": fstate["wres"] = True
